@@ -130,6 +130,21 @@ def cases(ctx, budget):
                 ok = r is False
                 yield Case({"function": name, "args": repr(args), "result": repr(r)}, None, [1 if ok else 9], [118, 0], None, True, "non-string", True,
                            (lambda a, b, ok=ok, r=r: None if ok else "non-string argument: result %r" % (r,)))
+    # class stress: escaped brackets / backslashes inside classes followed by characters that are special outside them
+    for _ in range((400 if ctx.quick else 20000) * budget):
+        body = []
+        for _k in range(rng.randint(1, 4)):
+            body.append(rng.choice(["\\]", "\\[", "\\\\", ".", "a", "|", "*", "\\.", "\\-", "^", "(", ")", "b", "+"]))
+        if body[0] == "^": body[0] = "a"
+        pat = rng.choice(["", "x", "."]) + "[" + ("^" if rng.random() < 0.2 else "") + "".join(body) + "]" + rng.choice(["", "y", ".", "*", "+"])
+        chars = [c.replace("\\", "")[-1:] if len(c) > 1 else c for c in body] + ["x", "y", "z", "\n"]
+        if rng.random() < 0.6:      # a subject shaped like the pattern: prefix, one or two class members, suffix
+            subj = {"": "", "x": "x", ".": "q"}[pat[0] if pat[0] in "x." else ""] + "".join(rng.choice(chars[:len(body)]) for _ in range(rng.randint(1, 2))) \
+                + {"y": "y", ".": "q"}.get(pat[-1], "")
+        else:
+            subj = "".join(rng.choice(chars) for _ in range(rng.randint(1, 3)))
+        yield mk(rng.random() < 0.5, subj, pat, "class-stress")
+        yield Case({"pattern": pat}, [15] + wire.enc_str(pat), wire.enc_str(map_re(pat)), None, None, True, "map_re")
     seen = set()
     for i in range(n):
         p = regexp(rng, 2)
